@@ -40,18 +40,28 @@ PROP = dict(
     assumptions=[
         "HLen H: digests have 32 bytes (explicit hypothesis; true of SHA-256)",
         "CollisionFree H {original, altered nonce||payload}: local injectivity of the hash, premise of payload_or_nonce_altered only",
-        "DH agreement sharedOf(ephPub) = shared: premise of handshake_accept; X25519 is not modelled. Checked on the "
-        "implementation by go.adnl.dh (tongo's curve25519-voi path vs crypto/ecdh) and by every network case",
+        "DHCommutes cv: the ONLY cryptographic premise of handshake_accept_keys — each side's X25519 scalar times the Montgomery form of the "
+        "other side's Ed25519 public key is the same value. keys.go is modelled (newKeys sends the Ed25519 PUBLIC key; sharedKey: "
+        "Edwards->Montgomery conversion of the peer key with its failure, own scalar = clamp(SHA-512(seed)[0:32]), clamp_spec); the curve "
+        "operations edPub / toMont / x25519 / sha512 are parameters (structure Curve). handshake_accept keeps the weaker form with the shared "
+        "secret as a free variable. Checked on the implementation by go.adnl.dh (tongo's curve25519-voi path vs crypto/ecdh + math/big) and "
+        "by every network case",
         "AES-256-CTR and SHA-256 are parameters of the theorems (any keystream function, any hash)",
         "TCP is modelled as a reliable byte stream; io.ReadFull as 'take n bytes when available' (not-yet = no result, no error)",
         "Go's types fix the lengths the model takes as hypotheses: nonce [32]byte, params [160]byte, Ed25519 public key 32 bytes",
     ],
     partial=[
-        "corruption_never_delivered (def, not a theorem): 'no alteration whatsoever is delivered' is probabilistic for a real hash. "
-        "Proved: length_bounds, checksum_only_altered (no hash assumption), payload_or_nonce_altered (under CollisionFree), truncation, "
-        "corruption_never_delivered_partial (length field altered to out-of-bounds or to a larger value). Not proved: length field "
-        "altered to a smaller in-bounds value (delivery would need SHA-256 of a prefix to equal bytes from the middle of the frame), "
-        "simultaneous alteration of payload and checksum. Both are exercised by the fault stream with real SHA-256.",
+        "corruption_never_delivered (def, NOT a theorem): 'no alteration whatsoever is delivered' is probabilistic for a real hash. "
+        "What IS proved: altered_stream_delivered_iff_checksum — for an ARBITRARY byte stream (any corruption, any trailing frames) a packet "
+        "is delivered iff the decrypted length is in bounds, enough bytes follow and the last 32 decrypted bytes equal H of the bytes before "
+        "them (no hash assumption: corruption is delivered only through that coincidence); altered_body_delivered_iff_collision (delivered iff "
+        "H collides on original and altered nonce||payload) with corollary payload_or_nonce_altered under CollisionFree on exactly these two "
+        "strings; checksum_only_altered (no hash assumption); length_bounds; truncation; corruption_never_delivered_partial_last_frame — a "
+        "LARGER declared length is 'not delivered' ONLY when nothing follows the frame (with following frames the reader consumes their bytes; "
+        "the iff above is the statement for that case). All are exercised by the fault stream with real SHA-256.",
+        "segmentation_independent re-runs the pure receive loop on every prefix of the stream; there is no incremental reader state "
+        "(buffer + offset fed chunk by chunk) with a homomorphism theorem — the Go side's chunked reads are covered by the harness "
+        "(random segment boundaries) only",
         "authentication (tcp.authentificate / authKey path of connection.go) is not modelled and not exercised",
         "the client-side handshake has no read deadline (a silent server blocks NewConnection/reconnect forever) and a parse error "
         "leaves the Connection 'Connected' but deaf until a send fails: liveness observations outside the property statement",
@@ -60,9 +70,9 @@ PROP = dict(
     level_text="Lean 4 theorems for ALL inputs over a hand model of adnl.go/encrypted_conn.go that is parametric in the hash and the "
                "keystreams: frame_roundtrip, stream_continuity (any list of packets, any starting offset; induction with the "
                "keystream offset as invariant), segmentation_independent (after any prefix of the byte stream exactly the complete "
-               "frames are delivered and the reader waits), bidirectional, handshake_accept + session_after_handshake against a spec "
-               "server written from the protocol description (premise: the two X25519 computations agree), length_bounds, "
-               "checksum_only_altered, payload_or_nonce_altered (premise: collision-freedom on the two messages), truncation. "
+               "frames are delivered and the reader waits), bidirectional, handshake_accept_keys (keys.go modelled; premise: X25519 commutes) + handshake_accept + session_after_handshake against a spec "
+               "server written from the protocol description, length_bounds, "
+               "checksum_only_altered, altered_stream_delivered_iff_checksum and altered_body_delivered_iff_collision (exact iff characterisations of delivery, no hash assumption), payload_or_nonce_altered (corollary under collision-freedom on the two strings), truncation, only_pong_consumed. "
                "The general 'any alteration is never delivered' stays a def (probabilistic). Tie: every run compares the real code "
                "and the compiled model byte for byte on the same inputs (marshal, ParsePacket, receive loop, send, handshake packet, "
                "params slices), and runs the real client over loopback TCP against an independent server, checking the bytes it "
